@@ -25,6 +25,8 @@ MERGED_ERR = {"meta": "C05", "dicts": "C06", "stored": "C05", "docnums": "C05", 
 
 def prop_of(prov, item):
     asp = item[0]
+    if asp == "posts-reuse" or (asp == "err" and item[1] == "reuse"):
+        return "C07"   # postings list / iterator passed back in as preallocation
     if prov == "built":
         return BUILT_ERR.get(item[1], "C01") if asp == "err" else BUILT.get(asp, "C01")
     if prov in ("opened-built", "persist", "open-built"):
@@ -40,7 +42,7 @@ def prop_of(prov, item):
     if prov == "dvwalk-merged":
         return "C06"
     if prov == "buildfail":
-        return "C10"
+        return "*"   # a valid batch that cannot be built violates whichever lifecycle property is being checked
     if prov == "close":
         return "C20"
     return "C01"
@@ -68,11 +70,19 @@ def plan_for(pid, tier):
         "C05": [("rich", 10 if q else 120, 9), ("stored", 6 if q else 50, 8), ("mergey", 20 if q else 200, 9), ("leanmerge", 1 if q else 5, 0)],
         "C06": [("rich", 10 if q else 120, 10), ("mergey", 30 if q else 300, 10), ("leanmerge", 1 if q else 8, 0)],
     }
+    P["C07"] = [("rich", 16 if q else 150, 6), ("mergey", 10 if q else 100, 6), ("lean", 1 if q else 6, 3)]
+    P["C12"] = [("syn", 30 if q else 300, 5), ("rich", 4 if q else 30, 4)]
+    P["C13"] = [("syn", 40 if q else 400, 10)]
+    if pid in ("C12", "C13"):
+        common["life_cfg"] = "LifeSynQ.cfg" if q else "LifeSyn.cfg"
     common["walks"] = 500 if q else 8000
-    common["walk_bias"] = "merge" if pid in ("C05", "C06") else "build"
+    common["walk_bias"] = "merge" if pid in ("C05", "C06", "C13") else "build"
     if pid == "C03":
         import compcheck
         common["pre"] = compcheck.dvvisit_stage
+    if pid == "C07":
+        import compcheck
+        common["pre"] = compcheck.postiter_stage
     common["profiles"] = P[pid]
     common["attr"] = {pid}
     return common
@@ -305,7 +315,7 @@ def classify(pid, plan, mism, known):
                 if k["property"] == pid or prop in plan["attr"]:
                     kf.setdefault(key, [k, 0])[1] += 1
                 continue
-            if prop in plan["attr"] or plan.get("attr_all"):
+            if prop in plan["attr"] or prop == "*" or plan.get("attr_all"):
                 viol.append({"l": m["l"], "prov": m["prov"], "item": item, "key": key})
             else:
                 notes[(prop, key)] = notes.get((prop, key), 0) + 1
